@@ -163,6 +163,22 @@ def run_tlc(
     return res
 
 
+def simulate_emitted(module: str, cfg: str, tag: str, num: int, depth: int, seed: int, timeout: int = 1800) -> tuple:
+    """Random behaviours of the specification (tlc -simulate): every state TLC evaluates on the way (the successors it chooses from
+    included) is emitted by the EmitCase invariant of the module; returns (TLCResult, emitted records)."""
+    out = workdir("sim", tag) / f"{module}.ndjson"
+    out.unlink(missing_ok=True)
+    r = run_tlc(module, cfg, tag=tag, env={"OUT_FILE": str(out)}, simulate=f"num={num}", depth=depth, workers=1, seed=seed, timeout=timeout)
+    m = re.search(r"The number of states generated: (\d+)", r.stdout)
+    if m:
+        r.generated = int(m.group(1))
+    recs = read_emitted(out) if out.exists() else []
+    out.unlink(missing_ok=True)
+    if not recs:
+        raise MachineryError(f"simulation of {module} emitted nothing")
+    return r, recs
+
+
 def read_emitted(path: Path) -> list:
     """Read lines written from TLA+ by CSVWrite("%1$s", <<ToJson(x)>>, file)."""
     out = []
